@@ -113,7 +113,10 @@ def run(ck):
             ck.fail_case({**sig, "clause": "isosteric analysis raises a non-pyGAPS error", "error": type(e).__name__}, {"dH": dH, "T": Ts, "units": [pu, lu], "error": repr(e)[:300]})
             continue
         got = [float(x) for x in res["isosteric_enthalpy"]]
-        tol = 1e-9 if kind == "model" and name != "Toth" else (1e-6 if kind == "model" else (1e-6 if scaled_grid else 2e-3))
+        # own-grid point isotherms: ln p carries the linear-interpolation error (~5e-4 on these grids), the slope divides it by the total
+        # change of ln p over the temperature set
+        spread = dH * 1000 / R * (max(1 / t_ for t_ in Ts) - min(1 / t_ for t_ in Ts))
+        tol = 1e-9 if kind == "model" and name != "Toth" else (1e-6 if kind == "model" else (1e-6 if scaled_grid else 1e-3 * (1 + 1 / spread)))
         e = max(relerr(g, dH) for g in got)
         note(f"isosteric:{name}:{kind}" + ("" if kind == "model" else (":scaled grid" if scaled_grid else ":own grid")), e)
         if not (e <= tol):
